@@ -18,6 +18,12 @@
 // Stored eigenvalue: t't of the score before the last update, within 2 sqrt(n*crit) of the converged one, which in turn is a
 // Rayleigh quotient (error lambda_k d^2).
 //
+// Rounding.  Two more terms, negligible unless lambda_k is many orders below lambda_1: the library works in double on E itself, so
+// direction k carries a rounding error of about eps_double * sqrt(n p) * sigma_1/sigma_k / (1 - r); and the oracle's own
+// eigenvectors come from a Jacobi sweep of E'E in long double, whose entries are exact only to eps_longdouble * lambda_1, i.e. its
+// k-th eigenvector is uncertain by eps_longdouble * lambda_1 / (lambda_k (1 - r)).  A component of relative size 1e-19 (centring
+// noise of data in a small unit on top of large offsets) is noise for the oracle itself and comes out as undecidable.
+//
 // The oracle allows SAFETY times these first-order bounds and declares a component undecidable (skipped, counted) when the
 // allowed angle would exceed 0.3.
 #pragma once
@@ -34,7 +40,7 @@ struct NipalsTol {
   int kmax = 0;                    // components [0,kmax) are decidable
 };
 
-inline NipalsTol nipals_tolerances(const LVec &ev, int npc, int n, double crit, double safety = 10.0) {
+inline NipalsTol nipals_tolerances(const LVec &ev, int npc, int n, double crit, double safety = 10.0, int ncols = 0) {
   NipalsTol T; T.sin_angle.assign(npc, 1.0); T.eval_rel.assign(npc, 1.0); T.score_rel.assign(npc, 1.0);
   long double c = 0;  // accumulated deflation perturbation of the cross-product matrix
   double tilt = 0;    // sum of the angle errors of the earlier components (each later loading is orthogonal to them)
@@ -46,7 +52,10 @@ inline NipalsTol nipals_tolerances(const LVec &ev, int npc, int n, double crit, 
     if (r >= 0.95) { T.kmax = k; break; }
     double dconv = sqrt((double)n * crit) * sqrt(r) / (1 - r);
     double ddefl = tilt + (double)(c / (ev[k] * (1 - r)));
-    double d = dconv + ddefl;
+    double cells = (double)n * (double)(ncols > 0 ? ncols : (int)ev.size());
+    double dround = 16 * 2.220446049250313e-16 * sqrt(cells) * sqrt((double)(ev[0] / ev[k])) / (1 - r);   // the library's double arithmetic
+    double doracle = 64 * 1.0842021724855044e-19 * (double)(ev[0] / ev[k]) / (1 - r);                       // the oracle's long-double Jacobi on E'E
+    double d = dconv + ddefl + dround + doracle;
     T.sin_angle[k] = safety * d + 1e-7;
     T.eval_rel[k] = safety * (2 * sqrt((double)n * crit) + d * d + (double)(c / ev[k])) + 1e-9;
     T.score_rel[k] = T.sin_angle[k]; for (int j = 0; j < k; j++) T.score_rel[k] += sqrt((double)(ev[j] / ev[k])) * T.sin_angle[j];
